@@ -208,6 +208,7 @@ pub fn history(cfg: &Cfg, rep: &mut Report, fl: Fl, h: u64, steps: usize, mode: 
             }
         }
         let cur = w.ledger();
+        let max_live = e.ledger().max_live_until_ledger();
         let live_ids: Vec<u32> = m.owner.keys().cloned().collect();
         let pick_id = |rng: &mut Rng, m: &Model| -> u32 {
             if live_ids.is_empty() || rng.chance(1, 10) {
@@ -246,12 +247,16 @@ pub fn history(cfg: &Cfg, rep: &mut Report, fl: Fl, h: u64, steps: usize, mode: 
         let b_ = if rng.chance(1, 6) { a_ } else { rng.idx(n) };
         let c_ = rng.idx(n);
         let lv = |rng: &mut Rng| -> u32 {
-            match rng.below(10) {
-                0 => 0,
-                1 => cur.saturating_sub(1),
-                2 => cur,
-                3 => cur + 1,
-                4 => cur + 2 + rng.below(10) as u32,
+            match rng.below(26) {
+                0 | 1 => 0,
+                2 | 3 => cur.saturating_sub(1),
+                4 | 5 => cur,
+                6 | 7 => cur + 1,
+                8 | 9 => cur + 2 + rng.below(10) as u32,
+                // the longest lifetime the ledger allows, one beyond it, and the end of the ledger range
+                10 => max_live,
+                11 => max_live.saturating_add(1),
+                12 => u32::MAX,
                 _ => cur + rng.below(200) as u32,
             }
         };
@@ -321,10 +326,10 @@ pub fn history(cfg: &Cfg, rep: &mut Report, fl: Fl, h: u64, steps: usize, mode: 
             Op::Transfer { from, id, .. } | Op::Burn { from, id } => (m.owner.get(id) == Some(from), false),
             Op::TransferFrom { sp, from, id, .. } | Op::BurnFrom { sp, from, id } => (m.owner.get(id) == Some(from) && m.may_spend(*sp, *from, *id, cur), false),
             Op::Approve { approver, id, l, .. } => match m.owner.get(id) {
-                Some(o) => ((o == approver || m.live_operator(*o, *approver, cur)) && (*l == 0 || *l >= cur), false),
+                Some(o) => ((o == approver || m.live_operator(*o, *approver, cur)) && (*l == 0 || (*l >= cur && *l <= max_live)), false),
                 None => (false, false),
             },
-            Op::ApproveAll { l, .. } => (*l == 0 || *l >= cur, false),
+            Op::ApproveAll { l, .. } => (*l == 0 || (*l >= cur && *l <= max_live), false),
         };
         let principal: Option<usize> = match &op {
             Op::Mint { .. } | Op::Batch { .. } => if fl.example() { Some(OWNER) } else { None },
